@@ -200,6 +200,12 @@ impl<'tcx> Dumper<'tcx> {
                     v.push(("fn", J::S(dps(tcx, *d))));
                     v.push(("fnargs", J::A(a.iter().map(|g| J::S(with_no_trimmed_paths!(format!("{}", g)))).collect())));
                 }
+                if let mir::Const::Val(mir::ConstValue::Scalar(mir::interpret::Scalar::Ptr(ptr, _)), _) = c.const_ {
+                    let (prov, _) = ptr.prov_and_relative_offset();
+                    if let Some(mir::interpret::GlobalAlloc::Static(sd)) = tcx.try_get_global_alloc(prov.alloc_id()) {
+                        v.push(("static", J::S(dps(tcx, sd))));
+                    }
+                }
                 if let mir::Const::Unevaluated(uv, _) = c.const_ {
                     if let Some(p) = uv.promoted {
                         v.push(("promoted", J::I(p.index() as i128)));
